@@ -280,7 +280,7 @@ theorem inputVariant_wire (c : Ctx) (p : String × FieldType) : (inputVariant c 
 /-! ## 4. what the theorems need of the module (`InputEnv`) -/
 
 /-- the Rust identifier of an enum value -/
-def variantIdent (c : Ctx) (v : String) : String := keywordReplace (c.o.normalization.enumVariant c.cs v)
+def variantIdent (c : Ctx) (v : String) : String := enumVariantIdent c.o.normalization c.cs v
 
 /-- the module `e` resolves the names of the used (`U`) scalars, enums and input types to the items the generator
     emits for them; custom scalars and extern enums are supplied by the consumer as `String` -/
